@@ -8,6 +8,7 @@
   `learning_rate` attribute the sparse models read for their threshold is the documented positive number.
 -/
 import GemVerif.Model.Optim
+import GemVerif.Model.Sparse
 import GemVerif.NumReal
 import Mathlib.Analysis.SpecialFunctions.Pow.Real
 import Mathlib.Tactic.Positivity
@@ -124,6 +125,24 @@ theorem adam_zero_history_fixed (c : AdamCfg ℝ) (gs : List ℝ) (w : ℝ) (t :
     subst hg
     simp only [adamRun, adamStep, mul_zero, add_zero, zero_div, List.length_cons]
     rw [this]; congr 2; omega
+
+/-- the proximal threshold of the sparse estimators, `self.alpha * self.optimiser_.learning_rate`, read AFTER the `t`-th Adam
+    update (`Model/Sparse.lean: threshold`): it is `alpha·lr0·√(1−β₂ᵗ)/(1−β₁ᵗ)`, strictly positive for `alpha > 0` and zero for
+    `alpha = 0` — never negative, so the proximal operators of C05 are always called inside their domain. -/
+theorem sparse_threshold_adam (c : AdamCfg ℝ) (alpha : ℝ) (t : ℕ) (ht : 1 ≤ t) (hlr : 0 < c.lr0)
+    (h1 : 0 ≤ c.beta1) (h1' : c.beta1 < 1) (h2 : 0 ≤ c.beta2) (h2' : c.beta2 < 1) :
+    GemVerif.Model.Sparse.threshold alpha (adamLr c t)
+        = alpha * (c.lr0 * Real.sqrt (1 - c.beta2 ^ t) / (1 - c.beta1 ^ t))
+      ∧ (0 < alpha → 0 < GemVerif.Model.Sparse.threshold alpha (adamLr c t))
+      ∧ (alpha = 0 → GemVerif.Model.Sparse.threshold alpha (adamLr c t) = 0) := by
+  obtain ⟨e, hp⟩ := adam_lr_pos c t ht hlr h1 h1' h2 h2'
+  refine ⟨by simp [GemVerif.Model.Sparse.threshold, e], fun ha => ?_, fun ha => by simp [GemVerif.Model.Sparse.threshold, ha]⟩
+  simp only [GemVerif.Model.Sparse.threshold]
+  exact mul_pos ha hp
+
+/-- Adam's learning-rate attribute tends to forget its warm-up: at `t = 1` it is `lr0·√(1−β₂)/(1−β₁)`. -/
+theorem adam_lr_first (c : AdamCfg ℝ) : adamLr c 1 = c.lr0 * Real.sqrt (1 - c.beta2) / (1 - c.beta1) := by
+  simp [adamLr, powNat]
 
 /-- hypotheses of the theorems above hold at scikit-learn's defaults as GemClus uses them (non-vacuity). -/
 example : (0 : ℝ) < 1e-3 ∧ (0 : ℝ) ≤ 0.9 ∧ (0.9 : ℝ) < 1 ∧ (0 : ℝ) ≤ 0.999 ∧ (0.999 : ℝ) < 1 ∧ (0 : ℝ) < 1e-8 := by
